@@ -465,10 +465,10 @@ def gen_circuits(J, rng, quick):
         cases.append(("UpCCGSD", 2, 2, utd, lambda utd=utd: UpCCGSD(mol(2, 2), mapping="JW", up_then_down=utd, k=1), 6 if quick else 24))
         cases.append(("UCCGD", 2, 2, utd, lambda utd=utd: UCCGD(mol(2, 2), mapping="JW", up_then_down=utd), 6 if quick else 24))
         if not quick or not utd:
-            cases.append(("UCCSD", 3, 2, utd, lambda utd=utd: UCCSD(mol(3, 2), mapping="JW", up_then_down=utd), 1 if quick else 8))
+            cases.append(("UCCSD", 3, 2, utd, lambda utd=utd: UCCSD(mol(3, 2), mapping="JW", up_then_down=utd), 1 if quick else 4))
         if not quick:
-            cases.append(("UCCSD", 3, 4, utd, lambda utd=utd: UCCSD(mol(3, 4), mapping="JW", up_then_down=utd), 1 if quick else 8))
-            cases.append(("UpCCGSD", 3, 2, utd, lambda utd=utd: UpCCGSD(mol(3, 2), mapping="JW", up_then_down=utd, k=1), 1 if quick else 6))
+            cases.append(("UCCSD", 3, 4, utd, lambda utd=utd: UCCSD(mol(3, 4), mapping="JW", up_then_down=utd), 1 if quick else 3))
+            cases.append(("UpCCGSD", 3, 2, utd, lambda utd=utd: UpCCGSD(mol(3, 2), mapping="JW", up_then_down=utd, k=1), 1 if quick else 3))
     if not quick:
         cases.append(("UpCCGSD", 2, 2, False, lambda: UpCCGSD(mol(2, 2), mapping="JW", k=2), 12))
         cases.append(("UCCGD", 3, 2, False, lambda: UCCGD(mol(3, 2), mapping="JW"), 2))
@@ -695,7 +695,7 @@ def history_instances(quick):
            # stabiliser engine at Clifford points: 6 and 8 qubits (H4-sized)
            # 6 qubits, ring engine (rotations of pi/4 per word: a mis-assigned angle inside one excitation shows; at
            # Clifford points it often does not - measured with the UpCCGSD layer-offset mutant)
-           ("UpCCGSD", 3, 2, False, 2, "ring", 2 if q else 8), ("UCCSD", 3, 2, False, 1, "ring", 1 if q else 4),
+           ("UpCCGSD", 3, 2, False, 2, "ring", 2 if q else 5), ("UCCSD", 3, 2, False, 1, "ring", 1 if q else 3),
            ("UCCSD", 3, 2, False, 1, "cliff", 0 if q else 6), ("UpCCGSD", 3, 2, False, 2, "cliff", 0 if q else 8),
            ("UCCSD", 4, 4, False, 1, "cliff", 1 if q else 10), ("UpCCGSD", 4, 4, False, 2, "cliff", 2 if q else 14),
            ("pUCCD", 4, 4, False, 1, "cliff", 1 if q else 6)]
@@ -783,7 +783,10 @@ def gen_frozen(J, rng, quick):
             n_act = nmo - len(frozen or [])
             if quick and n_act == 3 and name != "pUCCD":
                 continue                # 6-qubit circuits (600-1400 gates, ring engine): thorough only
-            for utd in ((False,) if quick else (False, True)):
+            heavy = n_act == 3 and name in ("UCCGD", "UpCCGSD")            # 6 qubits, 1000+ gates, ring engine
+            if heavy and molspec != (4, 4, 0, [0]):
+                continue
+            for utd in ((False,) if (quick or n_act == 3) else (False, True)):
                 frozen_job(J, rng, name, molspec, utd)
 
 
@@ -822,7 +825,10 @@ def gen_sign_histories(J, rng, quick):
             pairs = rng.sample(pairs, 3)
         elif quick:
             flips, pairs = rng.sample(flips, min(4, len(flips))), rng.sample(pairs, min(2, len(pairs)))
-        elif utd or nmo == 3:
+        elif nmo == 3:           # 6 qubits, ring engine, ~1400 gates per circuit: the all-equal flips and a few pairs
+            flips = [h for h in flips if set(h[0]) == {1}]
+            pairs = rng.sample(pairs, 6)
+        elif utd:
             pairs = rng.sample(pairs, min(60, len(pairs)))
         for sign, hs in (("flip", flips), ("pair", pairs)):
             for h in hs:
